@@ -395,6 +395,21 @@ def c04f(ck, prog):
     rec = [c for c in ap.calls() if c.callee == ap.key]
     ok = len(add) == 1 and len(rec) == 1 and all(ap.dominates(add[0].bb, r) for r in ap.exits()) and not [fa for fa in guards.facts_at(ap, prog, add[0].bb) if fa.kind in ("cmp", "boolcall", "boolplace") or (fa.kind == "variant" and fa.allowed == {"Some"} and "handler" in guards.describe_origin(ap, fa.steps))]
     ck.ob(R, "apply_fangs:every-node", ok, ap.loc(None), "" if ok else "Node::apply_fangs does not add the fangs to every node of the subtree (also handler-less ones, which serve the 404s)", how="recurse into children; self.fangses.add(id, fangs) unconditionally")
+    # ... in every per-method tree the router serves requests from: the fields of base::Router that are routing trees
+    from .C01 import apply_fangs_trees
+    seen, raf = apply_fangs_trees(prog)
+    base = [a for k, a in prog.adts.items() if k == "ohkami::router::base::Router"]
+    trees = set()
+    for a in base:
+        for v in a.get("variants", []):
+            for fl in v.get("fields", []):
+                if re.search(r"router::base::Node$", fl[1]):
+                    trees.add(fl[0])
+    if not trees:
+        raise AnchorLost("base::Router has no field of type base::Node")
+    ok = seen == trees
+    ck.ob(R, "apply_fangs:every-method-tree", ok, raf.loc(None), "" if ok else "Router::apply_fangs hands an application's fangs to the trees %s only, not to %s: requests of those methods (hits and 404s alike) run without the fangs" % (sorted(seen), sorted(trees - seen)),
+          how="every base::Node field of base::Router (%s) receives the fangs" % ", ".join(sorted(trees)))
 
 
 def c04g(ck, prog):
